@@ -21,6 +21,7 @@ func init() {
 			ruleDecodeTargets(c)
 			ruleOmitTagWholeTag(c)
 			ruleUnmarshalParamsErrors(c)
+			ruleEmptyParamsUntouched(c)
 			ruleArrayTranslateTotal(c)
 			c.Clause("C15-D4")
 			ruleWrapSnapshot(c)
